@@ -22,7 +22,8 @@
 (* Prior = TRUE models a single-threaded call (getDimension, an            *)
 (* evaluation, ...) made before the threads start: the cache is clean.     *)
 (*                                                                         *)
-(* DataRaceFree: two accesses to one location by different threads, at     *)
+(* DataRaceFree (latched in `race`, judged at each access against all      *)
+(* earlier ones): two accesses to one location by different threads, at    *)
 (* least one a write, must be ordered by happens-before: both under the    *)
 (* mutex, or the location is the atomic flag, or the write was published   *)
 (* (release store of the flag / mutex release) and the reader had observed *)
@@ -48,25 +49,37 @@ VARIABLES dirty,        \* the dirty bit
           pending,      \* per evaluator: tasks not yet run
           slots,        \* per evaluator: slots written by its tasks
           order,        \* per evaluator: order in which contributions were added to the result
-          acc,          \* history: accesses [loc, kind "r"/"w", th, held (mutex held?), hb (publications observed), seq]
+          acc,          \* history: the SET of accesses made so far [loc, kind "r"/"w", th, held (mutex held?)]
           hb,           \* per evaluator: evaluators whose publication it has observed (acquire side)
           pub,          \* evaluators that have published a completed fill (release side)
-          seq           \* step counter (trace order of the accesses)
-vars == <<dirty, vec, lock, pc, k, decoded, pending, slots, order, acc, hb, pub, seq>>
+          race          \* latched: some access conflicted with an earlier one that does not happen-before it
+vars == <<dirty, vec, lock, pc, k, decoded, pending, slots, order, acc, hb, pub, race>>
 
 TrueLayout == [i \in 1..NPoints |-> i]
 Th(e, w) == <<e, w>>          \* a thread: evaluator e itself is Th(e, 0); its executor's workers are Th(e, w)
-Rec(loc, kind, th, held) == [loc |-> loc, kind |-> kind, th |-> th, held |-> held, hb |-> hb[th[1]], seq |-> seq]
-Log(loc, kind, th, held) == acc' = acc \cup {Rec(loc, kind, th, held)} /\ seq' = seq + 1
-Log2(a, b) == acc' = acc \cup {a, b} /\ seq' = seq + 1
-NoLog == UNCHANGED <<acc, seq>>
+\* Accesses are judged when they are made, against every EARLIER access (all of `acc`): an order-free set suffices as history,
+\* so interleavings that differ only in the order of independent accesses merge into one state.
+Rec(loc, kind, th, held) == [loc |-> loc, kind |-> kind, th |-> th, held |-> held]
+\* the executor joins its workers before the caller continues: workers of one evaluation are ordered with their own caller
+\* but not with each other and not with other evaluators
+Unordered(t1, t2) == t1 # t2 /\ ~(t1[1] = t2[1] /\ (t1[2] = 0 \/ t2[2] = 0))
+Atomic(loc) == Mode # "unlocked" /\ loc = <<"dirty">>
+\* the earlier access e happens-before the new access n: both under the mutex, or e is a write whose evaluator published it
+\* (release) and n's evaluator had observed that publication (acquire) before n
+Conflicts(n) == \E e \in acc :
+                  /\ e.loc = n.loc /\ Unordered(e.th, n.th) /\ (e.kind = "w" \/ n.kind = "w")
+                  /\ ~Atomic(n.loc) /\ ~(e.held /\ n.held)
+                  /\ ~(e.kind = "w" /\ e.th[1] \in hb[n.th[1]])
+Log(loc, kind, th, held) == LET n == Rec(loc, kind, th, held) IN acc' = acc \cup {n} /\ race' = (race \/ Conflicts(n))
+Log2(a, b) == acc' = acc \cup {a, b} /\ race' = (race \/ Conflicts(a) \/ Conflicts(b))
+NoLog == UNCHANGED <<acc, race>>
 
 Init ==
     /\ dirty = ~Prior /\ vec = (IF Prior THEN TrueLayout ELSE <<>>) /\ lock = 0
     /\ pc = [e \in Evals |-> "check"] /\ k = [e \in Evals |-> 0]
     /\ decoded = [e \in Evals |-> <<>>] /\ pending = [e \in Evals |-> 1..NSegs]
     /\ slots = [e \in Evals |-> {}] /\ order = [e \in Evals |-> <<>>] /\ acc = {}
-    /\ hb = [e \in Evals |-> {}] /\ pub = {} /\ seq = 0
+    /\ hb = [e \in Evals |-> {}] /\ pub = {} /\ race = FALSE
 
 Locked == Mode # "unlocked"
 Held(e) == lock = e
@@ -144,16 +157,7 @@ Next == \E e \in Evals :
 Spec == Init /\ [][Next]_vars
 
 (* ------------------------------ properties ---------------------------- *)
-\* the executor joins its workers before the caller continues: workers of one evaluation are ordered with their own caller
-\* but not with each other and not with other evaluators
-Unordered(t1, t2) == t1 # t2 /\ ~(t1[1] = t2[1] /\ (t1[2] = 0 \/ t2[2] = 0))
-Atomic(loc) == Locked /\ loc = <<"dirty">>
-\* a (a write) happens-before b: a is earlier in the trace, was published by its thread, and b's thread had observed that publication
-WriteBeforeRead(a, b) == a.kind = "w" /\ a.seq < b.seq /\ a.th[1] \in b.hb
-DataRaceFree ==
-    \A a, b \in acc :
-        (a.loc = b.loc /\ Unordered(a.th, b.th) /\ (a.kind = "w" \/ b.kind = "w"))
-            => (Atomic(a.loc) \/ (a.held /\ b.held) \/ WriteBeforeRead(a, b) \/ WriteBeforeRead(b, a))
+DataRaceFree == ~race
 ResultIsSerial ==
     \A e \in Evals : pc[e] = "done" => decoded[e] = TrueLayout /\ order[e] = [i \in 1..NSegs |-> i] /\ slots[e] = 1..NSegs
 \* the decode loop never starts on a vector that is being rebuilt
